@@ -1330,6 +1330,10 @@ class Wtp:
                     pos = m.end()
                     ch = m.group(0)
                     idx = ord(ch) - MAGIC_FIRST
+                    if idx >= len(self.cookies):
+                        # not one of ours (as in expand_recurse() below)
+                        parts.append(ch)
+                        continue
                     kind, args, nowiki = self.cookies[idx]
                     # print(f"{kind=}, {args=}, {argmap=}")
                     assert isinstance(args, tuple)
